@@ -91,7 +91,14 @@ class HwCount(Contract):
         return ex, prog.function(self.key)
 
     def fresh_result(self, c, a):
-        return a['self'].n_arrays
+        me = a['self']
+        t = me.fields.get('table')
+        if isinstance(t, dict):              # count of STORED fields of the table as it is NOW (ArrayCount contract)
+            n = 0
+            for k, v in t.items():
+                n = ops_binop('+', n, Ite(ops_cmp('==', v[1], k), 1, 0))
+            return n
+        return me.n_arrays
 
 
 @fuc('headers.py::HeaderwordInfo.to_buffer', props=[], modular=True)
@@ -104,7 +111,13 @@ class HwToBuffer(Contract):
         return ex, prog.function(self.key)
 
     def fresh_result(self, c, a):
-        return a['self'].table_bytes
+        me = a['self']
+        t = me.fields.get('table')
+        if isinstance(t, dict):              # serialisation of the table as it is NOW (ToBuffer contract): opaque bytes tagged with a snapshot
+            b = BM.junk_bytes(1068, 'hwtable')
+            b.origin = ('hwtable', dict(t))
+            return b
+        return me.table_bytes
 
 
 # ---------------------------------------------------------------------------------------------
